@@ -1124,6 +1124,29 @@ fn closed_form_exact(r: R, s: R) -> bool {
 
 /// large operands: only the exactness criterion and mul's hull (products that overflow u32 panic as documented and are skipped)
 fn c15_big(r: R, s: R) -> Option<String> {
+    // set inclusion and membership need no arithmetic: checked for every pair
+    let inc = guarded(|| {
+        let (x, y) = (lr(r), lr(s));
+        let exp = match (r.1, s.1) {
+            (Some(_), None) => false,
+            _ => r.0 <= s.0 && (r.1.is_none() || s.1.unwrap() <= r.1.unwrap()),
+        };
+        if x.includes(&y) != exp {
+            return Some(format!("{}.includes({}) = {}, set inclusion says {}", show_r(r), show_r(s), x.includes(&y), exp));
+        }
+        for v in [r.0.saturating_sub(1), r.0, r.1.unwrap_or(u32::MAX), r.1.map(|b| b.saturating_add(1)).unwrap_or(u32::MAX)] {
+            let e = r.0 <= v && r.1.map(|b| v <= b).unwrap_or(true);
+            if x.contains(v) != e {
+                return Some(format!("{}.contains({}) = {}", show_r(r), v, x.contains(v)));
+            }
+        }
+        None
+    });
+    match inc {
+        Ok(Some(m)) => return Some(m),
+        Err(e) => return Some(format!("LoopRange {} {}: {}", show_r(r), show_r(s), e)),
+        Ok(None) => {}
+    }
     // skip documented overflow panics of mul32
     let lo = r.0 as u128 * s.0 as u128;
     let hi = match (r.1, s.1) {
@@ -1170,18 +1193,18 @@ fn c15_big(r: R, s: R) -> Option<String> {
 
 fn c15_big_ranges() -> (Vec<R>, Vec<R>) {
     let p31: u32 = 1 << 31;
-    let big: Vec<u32> = vec![100, 65535, 65536, 1_000_000, p31 - 2, p31 - 1, p31, p31 + 1, 3_000_000_000, u32::MAX / 2, u32::MAX - 2, u32::MAX - 1];
+    let big: Vec<u32> = vec![100, 1431, 42949, 65534, 65535, 65536, 65537, 100_000, 1_000_000, 3_000_000, p31 - 2, p31 - 1, p31, p31 + 1, 3_000_000_000, u32::MAX / 2, u32::MAX - 2, u32::MAX - 1, u32::MAX];
     let mut rs: Vec<R> = vec![];
     for &a in &big {
         rs.push((a, None));
-        for w in [0u32, 1, 2, 1000, p31 - 1, p31, p31 + 1] {
+        for w in [0u32, 1, 2, 1000, 1375, p31 - 1, p31, p31 + 1, u32::MAX - a] {
             if let Some(b) = a.checked_add(w) {
                 rs.push((a, Some(b)));
             }
         }
     }
     for &a in &[0u32, 1, 2, 1000] {
-        for b in [p31 - 1, p31, p31 + 1, 2147484648, 1_500_000_000, u32::MAX - 1] {
+        for b in [p31 - 1, p31, p31 + 1, 2147484648, 1_500_000_000, u32::MAX - 1, u32::MAX] {
             rs.push((a, Some(b)));
         }
     }
@@ -1193,7 +1216,13 @@ fn c15_big_ranges() -> (Vec<R>, Vec<R>) {
         }
     }
     ss.push((1000, Some(1001)));
-    ss.push((65536, None));
+    for c in [1431u32, 42949, 65534, 65535, 65536, 65537] {
+        ss.push((c, None));
+        ss.push((c, Some(c)));
+        ss.push((c, Some(c + 1)));
+    }
+    rs.sort();
+    rs.dedup();
     (rs, ss)
 }
 
